@@ -77,6 +77,25 @@ def ixExec (args : List String) (impl : String) : String × String :=
     | _, _, _ => ("bad-op", "n/a")
   | _ => ("bad-op", "n/a")
 
+/-- `IX.vec <flags> <unlock> <lock> <txdesc> <idx> <sats> <accept|reject>`: a node-generated vector shipped with the
+    repository.  The "implementation" column is the node's expectation; the *model's* verdict is what is judged. -/
+def ixVec (args : List String) (_impl : String) : String × String :=
+  match args with
+  | [fl, u, l, txd, idx, sats, want] =>
+    match fl.toNat?, unE? u, unE? l with
+    | some flags, some unlock, some lock =>
+      match mkCtx? txd idx sats lock with
+      | none => ("bad-op", "n/a")
+      | some ctx =>
+        let (v, _) := execute realCrypto flags ctx unlock lock
+        let cls := match v with
+          | .accept => "accept"
+          | .reject _ => "reject"
+          | .panic _ => "panic"
+        (s!"node-expects={cls}", if cls == want then "true" else s!"false:model-verdict-{cls}-differs-from-the-node's-{want}")
+    | _, _, _ => ("bad-op", "n/a")
+  | _ => ("bad-op", "n/a")
+
 /-- `IX.total …`: outcome only; the model's claim is "ok or err, never a panic" -/
 def ixTotal (impl : String) : String × String :=
   ("*", if impl.startsWith "PANIC" || impl.startsWith "CRASH" then "false:panic-or-crash" else "true")
